@@ -98,12 +98,6 @@ def _verify_written(root, data, absolute, packer):
         if absolute and w.pos != P:
             bad("position", w, pos=P, writer_pos=w.pos)
         seg = bytearray(data[P:P + len(blob)])
-        ext_ok = False
-        if not absolute and getattr(w, "name", None) == "Lookup" and bytes(seg[2:]) == blob[2:] and seg[:2] != blob[:2]:
-            # the HarfBuzz repacker may promote a lookup to Extension
-            ltype = int.from_bytes(blob[:2], "big")
-            etype = int.from_bytes(seg[:2], "big")
-            ext_ok = etype in (7, 9) and ltype != etype
         targets = []
         for off, size, child in links:
             v = int.from_bytes(seg[off:off + size], "big")
@@ -118,6 +112,10 @@ def _verify_written(root, data, absolute, packer):
                 bad("null-offset", w, child=getattr(child, "name", "?"))
                 continue
             targets.append((child, P + v))
+        ext_ok = False
+        if not absolute and getattr(w, "name", None) == "Lookup" and bytes(seg[2:]) == blob[2:] and seg[:2] != blob[:2]:
+            # the HarfBuzz repacker may promote a lookup to Extension
+            ext_ok = int.from_bytes(seg[:2], "big") in (7, 9)
         if ext_ok:
             seg[:2] = blob[:2]
             new = []
@@ -145,9 +143,9 @@ def _verify_written(root, data, absolute, packer):
 
 
 # ---------------------------------------------------------------- setup
-def setup():
-    from fontTools.ttLib.tables import otBase, otTables
-    from fontTools.otlLib.optimize import gpos as G
+def attach_writer_monitors():
+    """Monitors 1 and 2 (also attached by C11: every feature compile is a serialisation)."""
+    from fontTools.ttLib.tables import otBase
     from vmon.oracle import otlref
 
     hooks.counters.setdefault("writer-graph", 0)
@@ -184,6 +182,13 @@ def setup():
                              "independent re-parse of the written %s fails: %s" % (tag, e), {"path": e.path, "what": e.what})
 
     hooks.attach(otBase.BaseTTXConverter, "compile", post=post_compile, name="BaseTTXConverter.compile")
+
+
+def setup():
+    from fontTools.ttLib.tables import otBase, otTables
+    from fontTools.otlLib.optimize import gpos as G
+
+    attach_writer_monitors()
 
     def pre_resolve(a, kw):
         rec = a[2].value
@@ -268,8 +273,8 @@ def setup():
 
 # ---------------------------------------------------------------- cases
 SPEC_QUICK = [
-    ("kern_pairs", 1, "FN", [0]), ("class_kern", 1, "FN", [0]), ("ligatures", 1, "FN", [0]), ("multiple", 1, "FN", [0]),
-    ("alternate", 1, "FN", [0]), ("markbase", 1, "FNT", [0]), ("singlepos", 1, "FN", [0]), ("many_lookups", 1, "FNT", [0]),
+    ("kern_pairs", 1, "FNT", [0]), ("class_kern", 1, "FNT", [0]), ("ligatures", 1, "FNT", [0]), ("multiple", 1, "FNT", [0]),
+    ("alternate", 1, "FNT", [0]), ("markbase", 1, "FNT", [0]), ("singlepos", 1, "FNT", [0]), ("many_lookups", 1, "FNT", [0]),
     ("class_kern", 0, "F", [0, 1, 5, 9]), ("class_kern", 0, "N", [3]), ("zero_row_shadow", 0, "F", [0, 1, 5, 9]), ("mixed", 0, "FNT", [0, 5]),
     ("kern_pairs", 0, "F", [0, 9]),
 ]
@@ -288,16 +293,17 @@ def cases(tier, seed):
         cs.append({"id": "%s:%s%s" % ("aots" if aots else "font", rec["path"], "" if rec.get("member") is None else "#%d" % rec["member"]),
                    "kind": "corpus", "path": rec["path"], "member": rec.get("member"), "seed": seed,
                    "reps": "FNT" if (T or not aots) else "FN", "levels": [0, 5] if (T or not aots) else [0],
-                   "K": (60 if aots else 40) if T else (22 if aots else 18)})
+                   "K": (99 if aots else 45) if T else (22 if aots else 18)})
     feas = _fea_list()
     for name in (feas if T else feas[::5]):
         cs.append({"id": "fea:" + name, "kind": "fea", "name": name, "seed": seed, "reps": "FNT", "levels": [0, 5] if not T else [0, 1, 5, 9],
                    "K": 40 if T else 18})
     for name, size, reps, levels in (SPEC_THOROUGH if T else SPEC_QUICK):
-        for r in reps:
-            for lv in levels:
-                cs.append({"id": "spec:%s:s%d:%s:c%d" % (name, size, r, lv), "kind": "spec", "name": name, "size": size, "rep": r,
-                           "level": lv, "seed": seed})
+        for variant in range(2 if (T and size == 1) else 1):
+            for r in reps:
+                for lv in levels:
+                    cs.append({"id": "spec:%s:s%d:%s:c%d%s" % (name, size, r, lv, ":v%d" % variant if variant else ""), "kind": "spec",
+                               "name": name, "size": size, "rep": r, "level": lv, "seed": seed, "variant": variant})
     for name, reps in NOPACK:
         for r in reps:
             cs.append({"id": "nopack:%s:%s" % (name, r), "kind": "nopack", "name": name, "rep": r, "seed": seed, "timeout": 200})
@@ -611,7 +617,7 @@ def run_spec(case, ctx):
     from vmon.gen import c06_spec as S
     from vmon.oracle import otlref
 
-    rnd = random.Random("spec/%s/%s/%s" % (case["name"], case["size"], case["seed"]))
+    rnd = random.Random("spec/%s/%s/%s/%s" % (case["name"], case["size"], case["seed"], case.get("variant", 0)))
     m, texts = S.make(case["name"], rnd, case["size"])
     ref = otlref.Interp(m)
     want, keep = [], []
